@@ -37,7 +37,8 @@ def make_specs(ctx: Ctx, n):
     for i in range(n):
         label, prof = PROFILES[i % len(PROFILES)]
         m = gen.rand_model(rng, prof)
-        plan = [{"op": "solve", "jit": False}, {"op": "solve", "jit": True},
+        # every fifth case also records the per-period ccv arrays (hook solve_period, eager run) for step localisation
+        plan = [{"op": "solve", "jit": False, "record_ccv": i % 5 == 0}, {"op": "solve", "jit": True},
                 {"op": "rel-solve", "a": 1, "b": 2, "what": "jit-equals-eager"}]
         specs.append(mk_spec(i, m, ["solve"], plan, label=label))
     return specs
